@@ -11,7 +11,7 @@ range and stops at the first uncached height (missing_start); the database is as
 missing_start..range.end; the fetched items are zipped with that same range when they are cached and
 appended after the cached prefix (order of items.push); a None from the database yields None; the cache
 is filled only there, with (height, item) pairs of the zip; the two public getters pass the matching
-cache and P2pDb method.
+cache and P2pDb method. (5) codec: the read is bounded by the configured max_response_size, the read buffer is what is decoded, a length test may reject only len > limit, every encoding is written, protocol V1/V2 dispatch is total and mirrored.
 """
 NOT_DECIDED = """Codec round-trip and message size limits (value level) — that clause of C32 is out of reach."""
 
